@@ -21,7 +21,7 @@ func (m *Mutex) Lock() {
 		m.locked = false
 	}
 	if r := rt.Cur(); r != nil {
-		r.Point(rt.Op{Kind: "mutex.lock", Obj: &m.o, Enabled: func() bool { return !m.locked }})
+		r.Point(rt.Op{Kind: "mutex.lock", Obj: &m.o, VC: rt.VCAcquire, Enabled: func() bool { return !m.locked }})
 	} else if m.locked {
 		rt.Blocked("Mutex.Lock")
 	}
@@ -60,7 +60,7 @@ func (m *Mutex) Unlock() {
 	// preempted before its next synchronisation operation (exposes accesses moved
 	// out of the critical section)
 	if r := rt.Cur(); r != nil {
-		r.Point(rt.Op{Kind: "mutex.unlock", Obj: &m.o, Release: true})
+		r.Point(rt.Op{Kind: "mutex.unlock", Obj: &m.o, Release: true, VC: rt.VCRelease})
 	}
 }
 
@@ -81,7 +81,7 @@ func (m *RWMutex) Lock() {
 	m.touch()
 	if r := rt.Cur(); r != nil {
 		m.wwaiting++
-		r.Point(rt.Op{Kind: "rw.lock", Obj: &m.o, Enabled: func() bool { return !m.writer && m.readers == 0 }})
+		r.Point(rt.Op{Kind: "rw.lock", Obj: &m.o, VC: rt.VCWriteAcquire, Enabled: func() bool { return !m.writer && m.readers == 0 }})
 		m.wwaiting--
 	} else if m.writer || m.readers > 0 {
 		rt.Blocked("RWMutex.Lock")
@@ -99,7 +99,7 @@ func (m *RWMutex) Unlock() {
 	}
 	m.writer = false
 	if r := rt.Cur(); r != nil {
-		r.Point(rt.Op{Kind: "rw.unlock", Obj: &m.o, Release: true})
+		r.Point(rt.Op{Kind: "rw.unlock", Obj: &m.o, Release: true, VC: rt.VCRelease})
 	}
 }
 
@@ -108,7 +108,7 @@ func (m *RWMutex) RLock() {
 	if r := rt.Cur(); r != nil {
 		// Go gives parked writers preference over new readers. A writer counts as
 		// parked only once it is actually blocked (readers active).
-		r.Point(rt.Op{Kind: "rw.rlock", Obj: &m.o, Enabled: func() bool { return !m.writer && !(m.wwaiting > 0 && m.readers > 0) }})
+		r.Point(rt.Op{Kind: "rw.rlock", Obj: &m.o, VC: rt.VCReadAcquire, Enabled: func() bool { return !m.writer && !(m.wwaiting > 0 && m.readers > 0) }})
 	} else if m.writer {
 		rt.Blocked("RWMutex.RLock")
 	}
@@ -125,7 +125,7 @@ func (m *RWMutex) RUnlock() {
 	}
 	m.readers--
 	if r := rt.Cur(); r != nil {
-		r.Point(rt.Op{Kind: "rw.runlock", Obj: &m.o, Release: true})
+		r.Point(rt.Op{Kind: "rw.runlock", Obj: &m.o, Release: true, VC: rt.VCReadRelease})
 	}
 }
 
